@@ -445,12 +445,12 @@ def gen_case(rng: Any, family: str) -> dict[str, Any]:
     rejected = rejected_ids(vkind, denied)
     presigned_ids = [0, 2, 5]
     head_ids = [1, 4, 6, 8]
-    if family in ("presigned", "presigned_parallel"):
+    if family in ("presigned", "presigned_parallel", "rangecap"):
         uid = rng.choice(presigned_ids)
     elif family == "rejected_start":
         uid = rng.choice(rejected or [3])
     else:
-        uid = rng.choice(head_ids + presigned_ids if family == "mixed" else head_ids)
+        uid = rng.choice(head_ids + presigned_ids if family in ("mixed", "retry") else head_ids)
     if family != "rejected_start" and uid in rejected:
         rejected = [i for i in rejected if i != uid]
         denied = [i for i in denied if i != uid]
@@ -460,6 +460,8 @@ def gen_case(rng: Any, family: str) -> dict[str, Any]:
     presigned = uid in presigned_ids
     maxr = rng.choice([0, 1, 2, 3, 5])
     n = rng.choice([30, 64, 100, 120]) if family in ("hedge", "underreport") else rng.choice([0, 1, 7, 30, 64, 100, 120])
+    if family == "rangecap":
+        n = rng.choice([1, 7, 30, 64])
     obj_dec = bytes(rng.randrange(256) for _ in range(n))
     codec = 0
     obj = obj_dec
@@ -467,6 +469,9 @@ def gen_case(rng: Any, family: str) -> dict[str, Any]:
     cfg = {"threshold": rng.choice([0, 10, 50, 1000]), "chunk": rng.choice([1, 7, 16, 40, 64]), "max_fetch": rng.choice([5, 50, 100, 200, 1000]),
            "max_dec": rng.choice([None, None, 10, 100, 5000]), "max_redir": maxr, "mult2": rng.choice([0, 1, 2, 3, 4, 4]),
            "max_hedges": rng.choice([0, 1, 2, 4]), "max_parallel": rng.choice([1, 2, 3, 8])}
+    if family == "rangecap":
+        # the global cap equals the object (or is zero for the 1-byte probe): the sentinel byte trips max_fetch_bytes
+        cfg.update({"chunk": 64, "threshold": 0, "max_fetch": rng.choice([n, n, 0])})
     if family == "hedge":
         cfg.update({"chunk": rng.choice([7, 10, 16 if n >= 64 else 7]), "mult2": rng.choice([1, 2, 3, 4]), "max_parallel": rng.choice([1, 2, 8, 8, 8])})
     if use_codec:
@@ -483,7 +488,7 @@ def gen_case(rng: Any, family: str) -> dict[str, Any]:
 
     def attempt_script(allow_retry_fault: bool) -> dict[str, Any]:
         sc: dict[str, Any] = {}
-        parallel = family in ("parallel", "presigned_parallel", "underreport", "overreport", "hedge") or (family == "mixed" and rng.random() < 0.4)
+        parallel = family in ("parallel", "presigned_parallel", "underreport", "overreport", "hedge", "rangecap") or (family in ("mixed", "retry") and rng.random() < 0.4)
         declared = len(obj)
         if family == "underreport":
             declared = max(0, len(obj) - rng.choice([1, 5, 20, len(obj) // 2 + 1]))
@@ -491,7 +496,10 @@ def gen_case(rng: Any, family: str) -> dict[str, Any]:
             declared = len(obj) + rng.choice([1, 5, 40])
         if parallel:
             cfg["threshold"] = min(cfg["threshold"], declared)
-            if rng.random() < 0.85:
+            r0 = rng.random() if family != "rangecap" else 2.0
+            if r0 < 0.15:
+                cfg["max_fetch"] = declared          # the cap is exactly the object: one extra byte trips the global cap
+            elif r0 < 0.88:
                 cfg["max_fetch"] = max(cfg["max_fetch"], declared)
             if cfg["chunk"] == 1 and declared > 40:
                 cfg["chunk"] = 16
@@ -543,7 +551,7 @@ def gen_case(rng: Any, family: str) -> dict[str, Any]:
         elif r < 0.85:
             gfin = R(rng.choice([400, 403, 404, 416, 500, 503, 304, 300]), body=("static", [b"error page"]), form=form())
         else:
-            gfin = R(0, fault=rng.randint(1, 4) if allow_retry_fault else rng.choice([1, 4]))
+            gfin = R(0, fault=rng.randint(1, 4) if allow_retry_fault or rng.random() < 0.4 else rng.choice([1, 4]))
         sc["get"] = gen_chain(rng, gfin, maxr, rejected)
         # --- range tasks
         nch = -(-max(declared, 0) // cfg["chunk"]) if cfg["chunk"] > 0 else 0
@@ -553,7 +561,9 @@ def gen_case(rng: Any, family: str) -> dict[str, Any]:
             delay = rng.randint(1, 9)
             if family == "hedge" and tid == laggard:
                 delay = rng.choice([60, 90, 200])
-            if family in ("hedge", "underreport") or r < 0.72:
+            if family == "rangecap":
+                tfin = R(206, body=("range", {"extra": rng.choice([1, 2, 9]), "sizes": rand_sizes(rng, cfg["chunk"])}), form=form(), delay=delay)
+            elif family in ("hedge", "underreport") or r < 0.72:
                 arg: dict[str, Any] = {"sizes": rand_sizes(rng, cfg["chunk"])}
                 if rng.random() < 0.1:
                     arg["crange_hdr"] = False
@@ -568,7 +578,7 @@ def gen_case(rng: Any, family: str) -> dict[str, Any]:
             elif r < 0.9:
                 tfin = R(rng.choice([200, 200, 204, 416, 403, 500, 503]), body=("range", {"honest_status": False}), form=form(), delay=delay)
             else:
-                tfin = R(0, fault=rng.randint(1, 4) if allow_retry_fault else rng.choice([1, 4]), delay=delay)
+                tfin = R(0, fault=rng.randint(1, 4) if allow_retry_fault or rng.random() < 0.4 else rng.choice([1, 4]), delay=delay)
             if family == "hedge" and tid >= nch and rng.random() < 0.3:
                 tfin = R(rng.choice([500, 206]), body=("range", {"cut": 0}), form=form(), delay=rng.randint(1, 5))
             tfin["task"] = True
@@ -584,6 +594,15 @@ def gen_case(rng: Any, family: str) -> dict[str, Any]:
     else:
         a1 = attempt_script(True)
         a2 = attempt_script(False)
+        if family == "retry":
+            for sc_, p_ in ((a1, 1.0), (a2, 0.45)):
+                if rng.random() < p_:
+                    key = rng.choice(["probe", "get", "0", "1"])
+                    hops_ = sc_.get(key) or [R(200)]
+                    k_ = rng.randrange(len(hops_))
+                    sc_[key] = hops_[:k_] + [R(0, fault=rng.choice([2, 3]), delay=rng.randint(0, 3))]
+                    if key == "get":
+                        sc_["probe"] = [R(rng.choice([405, 200]), form=form())]
         case["attempts"] = [a1, a2]
     case["obj"] = obj
     case["obj_dec"] = obj_dec
@@ -591,7 +610,7 @@ def gen_case(rng: Any, family: str) -> dict[str, Any]:
     return case
 
 
-FAMILIES = ["single"] * 5 + ["presigned"] * 3 + ["parallel"] * 5 + ["presigned_parallel"] * 2 + ["hedge"] * 4 + ["underreport", "overreport", "overreport", "codec", "codec", "codec", "mixed", "mixed", "rejected_start", "bigchunk"]
+FAMILIES = ["retry"] * 3 + ["rangecap"] * 2 + ["single"] * 5 + ["presigned"] * 3 + ["parallel"] * 5 + ["presigned_parallel"] * 2 + ["hedge"] * 4 + ["underreport", "overreport", "overreport", "codec", "codec", "codec", "mixed", "mixed", "rejected_start", "bigchunk"]
 
 
 # ----------------------------------------------------------------------------------------------------------------
@@ -736,6 +755,98 @@ def url_mutations(rng: Any, n: int) -> list[str]:
         out.append("".join(s))
     return out
 
+# ----------------------------------------------------------------------------------------------------------------
+# second leg: the real aiohttp client against an in-process origin
+# ----------------------------------------------------------------------------------------------------------------
+def real_leg(ctx: Any) -> None:
+    from harness.c31_real import run_real, server_url
+
+    obj = bytes(ctx.rng.randrange(256) for _ in range(200))
+    A, B, C, H = POOL[0], POOL[8], POOL[3], POOL[4]     # presigned+userinfo, plain https, http (rejected by https_only), userinfo
+
+    def honest(total_reported: int | None = None, accept: bool = True, send_cr: bool = True) -> dict[str, Any]:
+        def head(_rng: Any) -> Any:
+            h = {"Content-Length": str(len(obj) if total_reported is None else total_reported)}
+            if accept:
+                h["Accept-Ranges"] = "bytes"
+            return 200, h, b""
+
+        def get(rng: Any) -> Any:
+            m = re.fullmatch(r"bytes=(\d+)-(\d+)", rng or "")
+            if m:
+                s, e = int(m.group(1)), int(m.group(2))
+                if s >= len(obj):
+                    return 416, {"Content-Range": f"bytes */{len(obj)}"}, b""
+                chunk = obj[s : e + 1]
+                return 206, ({"Content-Range": f"bytes {s}-{s + len(chunk) - 1}/{len(obj)}"} if send_cr else {}), chunk
+            return 200, {}, obj
+        return {"HEAD": head, "GET": get}
+
+    def redirect(to: str, status: int = 302) -> Any:
+        return lambda _rng: (status, {"Location": to}, b"moved")
+
+    from vgi_rpc.external import https_only_validator
+
+    scenarios: list[tuple[str, str, dict[str, Any], Any, dict[tuple[str, str], Any], str]] = []
+    par = {"parallel_threshold_bytes": 50, "chunk_size_bytes": 64, "max_fetch_bytes": 10_000}
+    single = {"parallel_threshold_bytes": 10**9, "max_fetch_bytes": 10_000}
+    o = honest()
+    scenarios.append(("single-head", B, single, https_only_validator, {("HEAD", B): o["HEAD"], ("GET", B): o["GET"]}, "ok"))
+    scenarios.append(("parallel-head", B, par, https_only_validator, {("HEAD", B): o["HEAD"], ("GET", B): o["GET"]}, "ok"))
+    scenarios.append(("parallel-presigned-userinfo", A, par, https_only_validator, {("GET", A): o["GET"]}, "ok"))
+    scenarios.append(("userinfo-404", H, single, None, {("HEAD", H): lambda r: (404, {}, b""), ("GET", H): lambda r: (404, {}, b"")}, "fail"))
+    scenarios.append(("userinfo-get-500", H, single, None, {("HEAD", H): lambda r: (405, {}, b""), ("GET", H): lambda r: (500, {"Location": H}, b"boom")}, "fail"))
+    scenarios.append(("redirect-to-rejected", B, single, https_only_validator, {("HEAD", B): redirect(C), ("GET", B): redirect(C), ("HEAD", C): o["HEAD"], ("GET", C): o["GET"]}, "fail"))
+    scenarios.append(("redirect-chain-ok", B, single, https_only_validator, {("HEAD", B): redirect(H), ("GET", B): redirect(H), ("HEAD", H): o["HEAD"], ("GET", H): o["GET"]}, "ok"))
+    scenarios.append(("redirect-loop", B, {**single, "max_redirects": 3}, https_only_validator, {("HEAD", B): redirect(B), ("GET", B): redirect(B)}, "fail"))
+    scenarios.append(("range-ignored", B, par, None, {("HEAD", B): o["HEAD"], ("GET", B): lambda r: (200, {}, obj)}, "fail"))
+    scenarios.append(("over-cap-declared", B, {**single, "max_fetch_bytes": 100}, None, {("HEAD", B): o["HEAD"], ("GET", B): o["GET"]}, "fail"))
+    scenarios.append(("over-cap-undeclared", B, {**single, "max_fetch_bytes": 100}, None, {("HEAD", B): lambda r: (405, {}, b""), ("GET", B): o["GET"]}, "fail"))
+    u = honest(total_reported=120)
+    scenarios.append(("head-under-reports", B, par, None, {("HEAD", B): u["HEAD"], ("GET", B): u["GET"]}, "finding"))
+    ov = honest(total_reported=300)
+    scenarios.append(("head-over-reports", B, par, None, {("HEAD", B): ov["HEAD"], ("GET", B): ov["GET"]}, "fail"))
+    for name, url, cfgk, validator, origin, expect in scenarios:
+        obs = run_real(url, cfgk, validator, origin)
+        ctx.count("impl_runs")
+        ctx.count("real_aiohttp_runs")
+        ctx.case(["real", name])
+        repl = {"leg": "real aiohttp client + in-process origin", "scenario": name, "url": url, "config": cfgk}
+        if obs["error"] is not None and obs["error"]["type"] == "HANG":
+            ctx.violation("fetch-hangs", "fetch_url did not return (real aiohttp leg)", repl)
+            continue
+        for r in obs["seen"]:
+            if validator is not None and not r["url"].startswith("https:"):
+                ctx.violation("contacted-url-the-validator-rejects", f"the origin received {r['method']} {r['url']}", repl)
+        maxr = cfgk.get("max_redirects", 5)
+        # requests per (method, range): at most max_redirects + 1 per sequence; sequences = probe + GET (+ one per range and hedge)
+        heads = [r for r in obs["seen"] if r["method"] == "HEAD"]
+        if len(heads) > maxr + 1:
+            ctx.violation("more-redirects-than-max", f"{len(heads)} HEAD requests for one probe, max_redirects={maxr}", repl)
+        if obs["error"] is None:
+            if expect == "fail":
+                ctx.violation("returns-bytes-that-are-not-the-object" if obs["result"] != obj else "real-leg-expectation", f"scenario {name} succeeded with {len(obs['result'])} bytes", repl)
+            elif obs["result"] != obj:
+                if expect == "finding" and obs["result"] == obj[:120]:
+                    ctx.violation("parallel-path-trusts-probed-length-returns-silent-prefix",
+                                  "real aiohttp: HEAD reported 120 bytes for a 200-byte object, every 206 carried Content-Range .../200; fetch_url returned the 120-byte prefix", repl)
+                else:
+                    ctx.violation("returns-bytes-that-are-not-the-object", f"scenario {name}: {len(obs['result'])} bytes differ from the object", repl)
+        elif expect == "ok":
+            ctx.violation("real-leg-honest-origin-fails", f"scenario {name} failed: {obs['error']['type']}: {obs['error']['str'][:200]}", repl)
+        # the in-process origin logs its own access lines: those are the server's, not fetch_url's
+        obs["logs"] = [t for t in obs["logs"] if not t.startswith(("aiohttp.access|", "aiohttp.server|", "aiohttp.web|", "aiointercept"))]
+        texts = list(obs["logs"]) + ([obs["error"]["str"], obs["error"]["traceback"], obs["error"].get("request_url", "")] if obs["error"] else [])
+        for t in texts:
+            m = SECRET_RE.search(t)
+            if m:
+                where = "log-record" if t in obs["logs"] else "rendered-error"
+                ctx.violation(f"secret-in-{where}", f"real aiohttp leg, {name}: {where} contains {m.group(0)}: {t[:300]}", repl)
+                break
+        if obs["error"] is not None and SECRET_RE.search(obs["error"].get("repr") or ""):
+            ctx.count("note_secret_reachable_via_repr")
+        ctx.tally("real_leg", f"{name}:{'ok' if obs['error'] is None else obs['error']['type']}")
+
 
 def translate(ctx: Any) -> None:
     from translate import t_c31_src
@@ -744,7 +855,7 @@ def translate(ctx: Any) -> None:
 
 
 P_THEOREMS = [
-    "C31_only_validated_urls_contacted", "C31_redirects_le_max", "C31_bytes_read_le_cap_plus_chunk", "C31_hedges_bounded",
+    "C31_only_validated_urls_contacted", "C31_redirects_le_max", "C31_bytes_read_le_cap_plus_chunk", "C31_total_range_bytes_le_cap_plus_chunks", "C31_hedges_bounded",
     "C31_ranges_partition", "C31_decoded_le_cap", "C31_exact_or_fail_partial", "C31_at_most_two_attempts",
     "C31_redacted_has_no_userinfo_query_fragment",
 ]
@@ -859,6 +970,8 @@ def run(ctx: Any) -> None:
     ok, bad, clog = ctx.coq_mismatches(header, "is_presigned", "Bool.eqb", pcases, "list (list N)", "bool", shard=300)
     ctx.obligation("correspondence:M_Fetch.is_presigned", "correspondence", ok and not bad, clog if not ok else f"{len(bad)} of {len(pcases)} disagree")
     ctx.count("model_cases", len(rcases) + len(pcases))
+
+    real_leg(ctx)
 
     ctx.assumptions += [
         "aiohttp.ClientSession is replaced by a scripted session (head/get/iter_chunked/read/release); aiohttp's own framing, pooling and timeouts are trusted",
